@@ -21,6 +21,9 @@ def gen_elem(n, depth):
         out.append([])
     if n == 1:
         out.append(['OPD'])
+    if n == 2:
+        out.append(['PRE', 'OPD'])
+        out.append(['tok:Minus', 'OPD'])
     if n == 3:
         out.append(['OPD', 'BIN', 'OPD'])
         out.append(['WRT', 'ASG', 'OPD'])
@@ -81,6 +84,12 @@ def ref_tree(spec, seps):
             assert spec[pos[0]] == ')'
             pos[0] += 1
             return r
+        if k in ('PRE', 'tok:Minus'):
+            i = pos[0]
+            pos[0] += 1
+            operand = ('leaf', spec[pos[0]][3:])
+            pos[0] += 1
+            return ('pre', i, operand)
         # operand, maybe followed by BIN/ASG operand
         assert k.startswith('id:')
         left = ('leaf', k[3:])
@@ -136,6 +145,12 @@ def tree_eq(C, S, n, ref):
     if k == 'leaf':
         f = n.fields[0].fields
         return z3.BoolVal(bool(f) and isinstance(f[0], SStr) and f[0].concrete() == ref[1] and not ch)
+    if k == 'pre':
+        if len(ch) != 1 or n.fields[0].fields or opn == 'RootNode':
+            return z3.BoolVal(False)
+        sl = S.slot_at(ref[1])
+        want = expected_op(C, 'PRE', sl[1]) if sl else z3.BitVecVal(C.VI('Operator', 'Neg'), 64)
+        return z3.And(op_term(n) == want, tree_eq(C, S, ch[0], ref[2]))
     if k in ('bin', 'asg'):
         if len(ch) != 2 or n.fields[0].fields:
             return z3.BoolVal(False)
@@ -155,6 +170,8 @@ def show_ref(r):
         return '()'
     if k == 'leaf':
         return r[1]
+    if k == 'pre':
+        return '(pre %s)' % show_ref(r[2])
     if k in ('bin', 'asg'):
         return '(%s op %s)' % (show_ref(r[2]), show_ref(r[3]))
     return '%s[%s]' % (k, ' '.join(show_ref(x) for x in r[1]))
@@ -291,6 +308,8 @@ def replay_ce(ce):
             seps[i] = t
         elif t in '()':
             spec.append(t)
+        elif t in ('-', '!') and (i == 0 or toks[i - 1] in (',', ';', '(')):
+            spec.append('tok:Minus' if t == '-' else 'PRE')
         elif t in TOKEN_TEXT.values():
             spec.append('ASG' if t.endswith('=') and t not in ('==', '!=', '<=', '>=') else 'BIN')
         else:
@@ -335,6 +354,8 @@ def replay_ce(ce):
             return n[0] == 'RootNode' and not n[2]
         if k == 'leaf':
             return n[1] is not None and bytes.fromhex(n[1]).decode() == r[1] and not n[2] if n[0] != 'Const' else False
+        if k == 'pre':
+            return len(n[2]) == 1 and n[0] in ('Neg', 'Not') and eq(n[2][0], r[2])
         if k in ('bin', 'asg'):
             return len(n[2]) == 2 and n[1] is None and eq(n[2][0], r[2]) and eq(n[2][1], r[3])
         if k in ('tuple', 'chain'):
